@@ -1,18 +1,15 @@
 /-
 Props/C04_Asf.lean — C04 "Malformed input is rejected cleanly": ASF.  For EVERY byte string: which
 exception classes `ASF(file)`, `save` and `delete` can end in (model: Model/Container/Asf.lean; lemmas:
-Proofs/Container/AsfTotal.lean).  No theorem here has a well-formedness hypothesis on the file.
+Proofs/Container/AsfTotal.lean).  No theorem here has a hypothesis on the file.
 
-What is not a MutagenError, and why the closure theorems are `…_partial`:
-* `.notImplemented` — the model's "outside the model" for a Header Extension Object inside a Header
-  Extension Object (`NestedExt f`).  The real code recurses there: fine for shallow nesting,
-  RecursionError from about 1000 levels (46 KiB of nested headers).
-* `.struct_` (struct.error) — a name, value, count or size does not fit the field `struct.pack` is asked
-  to put it in.  Caller-supplied tags are excluded by the decidable `Renderable tags`; but a file can
-  LOAD with tags that are not renderable (`asf_resave_escape_witness`), and a Header Extension Object
-  that would declare 4 GiB or more is excluded by the decidable `SaveFits`.
-* `.unicode` (UnicodeEncodeError) — lone surrogates in caller-supplied names or text; never for the
-  tags a file was loaded with (`asf_loaded_tags_encodable`).
+Load, delete and the save of what was loaded end in a value or a MutagenError, whatever the bytes.
+A save of caller-supplied tags can besides raise UnicodeEncodeError, and only when a name or a text
+value holds a lone surrogate (`¬ Tag.Enc`): that `str.encode` call is the caller's error and is not
+caught.  Everything `struct.pack` refuses while the header is rendered — a name, value, count or size
+that does not fit its field, out-of-range numbers supplied by the caller included — leaves `save` as
+ASFError; a Header Extension Object inside a Header Extension Object and a Header Object inside the
+header are ASFHeaderErrors at load.
 -/
 import MutagenModel.Proofs.Container.AsfTotal
 set_option linter.unusedVariables false
@@ -21,59 +18,49 @@ open Mutagen
 
 /-! ## load -/
 
-/-- `ASF(file)` on any byte string ends with a tree, a MutagenError, or the model's "outside" answer,
-which it gives only when a Header Extension Object sits inside a Header Extension Object -/
-theorem asf_load_classes (f : Bytes) (e : PyErr) (h : Asf.parseFull f = .error e) :
-    e = .mutagen ∨ (e = .notImplemented ∧ Asf.NestedExt f) :=
-  Asf.parseFull_err' h
+/-- C04 for load: `ASF(file)` on any byte string ends with a tree or a MutagenError -/
+theorem asf_load_clean (f : Bytes) (e : PyErr) (h : Asf.parseFull f = .error e) : e = .mutagen :=
+  Asf.parseFull_err h
 
 /-- the loops of loading are bounded: never `diverge` -/
 theorem asf_load_never_diverges (f : Bytes) : Asf.parseFull f ≠ .error .diverge :=
   Asf.parseFull_no_diverge f
 
-/-- C04 for load, all byte strings but those with a Header Extension Object inside a Header Extension
-Object.  MISSING: that case — the model does not follow the recursion; the code raises RecursionError
-when it is deep. -/
-theorem asf_load_clean_partial (f : Bytes) (hn : ¬ Asf.NestedExt f) (e : PyErr) (h : Asf.parseFull f = .error e) : e = .mutagen := by
-  rcases Asf.parseFull_err' h with h1 | ⟨_, h2⟩
-  · exact h1
-  · exact absurd h2 hn
-
 /-! ## delete -/
 
-/-- `delete` on any byte string: a MutagenError, the nested-extension case of loading, or struct.error -/
-theorem asf_delete_classes (f : Bytes) (e : PyErr) (h : Asf.delete f = .error e) :
-    e = .mutagen ∨ (e = .notImplemented ∧ Asf.NestedExt f) ∨ e = .struct_ :=
-  Asf.delete_err_classes h
-
-/-- C04 for delete.  MISSING: nested Header Extension Objects (as for load), and files whose rewritten
-Header Extension Object would declare 4 GiB or more / whose new size would not fit 64 bits
-(`SaveFits`: then `struct.pack` raises struct.error) -/
-theorem asf_delete_clean_partial (f : Bytes) (hn : ¬ Asf.NestedExt f) (hf : Asf.SaveFits f [] Asf.padZero) (e : PyErr)
-    (h : Asf.delete f = .error e) : e = .mutagen := by
-  rcases Asf.delete_err_fits hf h with h1 | ⟨_, h2⟩
-  · exact h1
-  · exact absurd h2 hn
+/-- C04 for delete: on any byte string, a file or a MutagenError -/
+theorem asf_delete_clean (f : Bytes) (e : PyErr) (h : Asf.delete f = .error e) : e = .mutagen :=
+  Asf.delete_err h
 
 /-! ## save -/
 
-/-- `save` on any byte string with any tags and any padding answer: a MutagenError, the nested-extension
-case of loading, UnicodeEncodeError or struct.error — no other class -/
+/-- `save` on any byte string with any tags and any padding answer: a MutagenError or
+UnicodeEncodeError — no other class -/
 theorem asf_save_classes (f : Bytes) (tags : List Asf.Tag) (pad : PadChoice) (e : PyErr) (h : Asf.save f tags pad = .error e) :
-    e = .mutagen ∨ (e = .notImplemented ∧ Asf.NestedExt f) ∨ e = .unicode ∨ e = .struct_ :=
+    e = .mutagen ∨ e = .unicode :=
   Asf.save_err_classes h
 
-/-- C04 for save with caller-supplied tags that are `Renderable` (decidable: strings encodable, numbers
-in range, encoded name + terminator below 64 KiB, value below 4 GiB, language / stream 16 bits, fewer
-than 65536 tags).  MISSING: tags outside `Renderable` (UnicodeEncodeError / struct.error from
-`struct.pack` and `str.encode`), nested Header Extension Objects, sizes beyond `SaveFits`. -/
-theorem asf_save_clean_partial (f : Bytes) (tags : List Asf.Tag) (pad : PadChoice) (hr : Asf.Renderable tags)
-    (hn : ¬ Asf.NestedExt f) (hf : Asf.SaveFits f tags pad) (e : PyErr) (h : Asf.save f tags pad = .error e) : e = .mutagen := by
-  rcases Asf.save_err_fits hr hf h with h1 | ⟨_, h2⟩
-  · exact h1
-  · exact absurd h2 hn
+/-- C04 for save with tags whose names and text values can be encoded (`Tag.Enc`, decidable: no lone
+surrogates; numbers, lengths and counts are free): a file or a MutagenError -/
+theorem asf_save_clean (f : Bytes) (tags : List Asf.Tag) (pad : PadChoice) (ht : ∀ t ∈ tags, t.Enc) (e : PyErr)
+    (h : Asf.save f tags pad = .error e) : e = .mutagen :=
+  Asf.save_err_enc ht h
 
-/-- renderable tags render: all four metadata payloads are produced -/
+/-- UnicodeEncodeError comes from a caller-supplied tag that cannot be encoded, and from nothing else -/
+theorem asf_save_unicode_only_unencodable (f : Bytes) (tags : List Asf.Tag) (pad : PadChoice)
+    (h : Asf.save f tags pad = .error .unicode) : ∃ t ∈ tags, ¬ t.Enc := by
+  apply Classical.byContradiction
+  intro hn
+  have hall : ∀ t ∈ tags, t.Enc := by
+    intro t ht
+    apply Classical.byContradiction
+    intro hne
+    exact hn ⟨t, ht, hne⟩
+  have := Asf.save_err_enc hall h
+  cases this
+
+/-- renderable tags (`Renderable`: besides encodable, every number, length and count in range) render:
+all four metadata payloads are produced -/
 theorem asf_renderable_renders (tags : List Asf.Tag) (h : Asf.Renderable tags) : ∃ P, Asf.Renders (Asf.distPure tags) P :=
   Asf.renders_of_renderable tags h
 
@@ -83,33 +70,21 @@ theorem asf_renderable_renders (tags : List Asf.Tag) (h : Asf.Renderable tags) :
 theorem asf_loaded_tags_encodable (objs : List Asf.Obj) : ∀ t ∈ Asf.loadedTags objs, t.Enc :=
   Asf.loadedTags_enc objs
 
-/-- `a = ASF(file); a.save(file)` on any byte string and any padding answer: no UnicodeEncodeError — a
-MutagenError, the nested-extension case, or struct.error -/
-theorem asf_resave_classes (f : Bytes) (pad : PadChoice) (e : PyErr) (h : Asf.resave f pad = .error e) :
-    e = .mutagen ∨ (e = .notImplemented ∧ Asf.NestedExt f) ∨ e = .struct_ :=
-  Asf.resave_err_classes h
+/-- C04 for `a = ASF(file); a.save(file)`: on any byte string and any padding answer, a file or a
+MutagenError -/
+theorem asf_resave_clean (f : Bytes) (pad : PadChoice) (e : PyErr) (h : Asf.resave f pad = .error e) : e = .mutagen :=
+  Asf.resave_err h
 
-/-- ESCAPE (struct.error): a 65600-byte file that loads, and whose save — tags untouched, any padding
-choice — raises struct.error.  Its Extended Content Description Object has a descriptor whose name
-field has 65534 bytes and no terminator; `render` appends one: 65536 does not fit `struct.pack("<H")`. -/
-theorem asf_resave_escape_witness (pad : PadChoice) : Asf.resave Asf.wLongName pad = .error .struct_ :=
+/-- the former escape (struct.error before f0601fa): the 65600-byte file that loads with a name of
+65534 bytes without terminator; saving it unchanged now ends in ASFError, with any padding choice -/
+theorem asf_resave_long_name_witness (pad : PadChoice) : Asf.resave Asf.wLongName pad = .error .mutagen :=
   Asf.resave_wLongName pad
-
-/-- C04 for the unchanged save.  MISSING: loaded tags that are not `Renderable` (witness above; likewise
-more than 65535 values ending up in one object), nested Header Extension Objects, sizes beyond `SaveFits`. -/
-theorem asf_resave_clean_partial (f : Bytes) (pad : PadChoice) (objs : List Asf.Obj) (ho : Asf.parseFull f = .ok objs)
-    (hr : Asf.Renderable (Asf.loadedTags objs)) (hf : Asf.SaveFits f (Asf.loadedTags objs) pad) (e : PyErr)
-    (h : Asf.resave f pad = .error e) : e = .mutagen := by
-  rw [Asf.resave_eq_save ho] at h
-  rcases Asf.save_err_fits hr hf h with h1 | ⟨_, h2⟩
-  · exact h1
-  · unfold Asf.NestedExt at h2; rw [ho] at h2; cases h2
 
 /-! ## concrete inputs -/
 
-/-- the model's "outside" answer: a Header Extension Object in a Header Extension Object -/
+/-- a Header Extension Object in a Header Extension Object (RecursionError when deep, before a27e641) -/
 example : Asf.parseFull (Asf.headerBytes 1 (Asf.object Asf.gExt (Asf.extPayload (Asf.object Asf.gExt (Asf.extPayload []))))) =
-    .error .notImplemented := by decide +kernel
+    .error .mutagen := by decide +kernel
 
 /-- not an ASF file; too short -/
 example : Asf.parseFull (zeros 40) = .error .mutagen := by decide +kernel
@@ -141,15 +116,10 @@ example : Asf.parseFull (Asf.headerBytes 1 (Asf.object Asf.gFileProps (zeros 63)
 /-- the header size field reaches beyond the file: "truncated content" at save time -/
 example : Asf.delete (Asf.gHeader ++ toLE 8 1000 ++ toLE 4 0 ++ [1, 2]) = .error .mutagen := by decide +kernel
 
-/-- caller-supplied tags outside `Renderable`: a lone surrogate in a text value; a DWORD of 2^32 -/
+/-- caller-supplied tags: a lone surrogate in a text value is the caller's UnicodeEncodeError; a DWORD of
+2^32 (struct.error while rendering) leaves `save` as ASFError -/
 example : Asf.save Asf.exLayout.render [⟨[102], .unicode [0xD800], none, none⟩] .default = .error .unicode := by decide +kernel
-example : Asf.save Asf.exLayout.render [⟨[102], .dword 4294967296, none, none⟩] .default = .error .struct_ := by decide +kernel
-example : ¬ Asf.Renderable [⟨[102], .unicode [0xD800], none, none⟩] ∧ ¬ Asf.Renderable [⟨[102], .dword 4294967296, none, none⟩] := by
-  decide +kernel
-
-/-- the hypotheses of the partial theorems hold for the small well-formed file of the other property files -/
-example : ¬ Asf.NestedExt Asf.exLayout.render ∧ Asf.Renderable Asf.exTags ∧ Asf.SaveFits Asf.exLayout.render Asf.exTags .default ∧
-    Asf.SaveFits Asf.exLayout.render [] Asf.padZero := by
-  refine ⟨by decide +kernel, by decide +kernel, by decide +kernel, by decide +kernel⟩
+example : ¬ (⟨[102], .unicode [0xD800], none, none⟩ : Asf.Tag).Enc := by decide +kernel
+example : Asf.save Asf.exLayout.render [⟨[102], .dword 4294967296, none, none⟩] .default = .error .mutagen := by decide +kernel
 
 end Mutagen.C04
